@@ -3,7 +3,7 @@ from hypothesis import strategies as st
 
 from . import spec as S
 
-PRIORITIES = [0, 0, 0, 0, 1, -1, 2, -2, 'high', 'low']
+PRIORITIES = [0, 0, 0, 0, 0, 1, -1, 2, -2, 'high', 'low', 10, -10, 100, 3]
 DELAYS = [0, 0.25, 0.5, 1, 2, 5]
 
 DEFAULT_MIX = (('sibling', 30), ('other', 15), ('orthin', 15), ('anc', 10), ('desc', 5),
@@ -22,7 +22,7 @@ def charts(draw, max_states=12, max_depth=4, p_hist=0.4, allow_final=True, root_
            n_events=3, min_tr=3, max_tr=14, p_orth_root=0.3, mix=DEFAULT_MIX, p_eventless=0.2,
            p_sends=0.0, p_notify=0.0, send_delays=False, force_history=False,
            priorities=PRIORITIES, dup_tr=0.0, name_fmt='s%02d', allow_orthogonal=True, orth_weight=None, p_hist2=0.25,
-           p_aguard=0.0):
+           p_aguard=0.0, p_wild=0.25):
     """A well-formed chart spec (DESIGN.md section 2), built by construction."""
     nodes = []
     budget = [max_states - 1]
@@ -83,11 +83,19 @@ def charts(draw, max_states=12, max_depth=4, p_hist=0.4, allow_final=True, root_
     n = len(nodes)
     ids = draw(st.lists(st.integers(0, 99), min_size=n, max_size=n, unique=True))
     names = [name_fmt % i for i in ids]
-    if name_fmt == 's%02d' and draw(st.integers(0, 3)) == 0:
+    if name_fmt == 's%02d' and draw(st.floats(0, 1)) < p_wild:
         # names whose string order differs from their numeric order and from a case-insensitive
         # order: 'S7' < 'Z100' < 'a10' < 'a9' < 's3'
         ids = draw(st.lists(st.integers(0, 120), min_size=n, max_size=n, unique=True))
         names = [draw(st.sampled_from(['s', 's', 'S', 'a', 'Z'])) + '%d' % i for i in ids]
+        # ... and some one-character names (which are parts of the longer ones)
+        chars = sorted(set(''.join(names)))
+        singles = draw(st.lists(st.sampled_from(chars), max_size=min(n - 1, 4), unique=True))
+        for k, ch in enumerate(singles):
+            if ch not in names:
+                names[(k * 7 + len(singles)) % n] = ch
+        if len(set(names)) != n:
+            names = ['s%d' % i for i in ids]
     states = []
     for i, nd in enumerate(nodes):
         s = {'name': names[i], 'sid': i, 'kind': nd['kind'],
@@ -209,7 +217,7 @@ def gvs(draw, n, p_all=0.2, p_none=0.1):
 
 @st.composite
 def histories(draw, spec, min_ops=6, max_ops=20, n_events=3, delays=False, advances=False,
-              p_all=0.2, p_none=0.1, extra_events=0, as_event=False):
+              p_all=0.2, p_none=0.1, extra_events=0, as_event=False, big_jump=False):
     """operation list: ['q', name, delay|None, mode] | ['adv', dt] | ['step', [bool..]].
 
     Starts with the initial step.  External events get uid 'x<i>' by position."""
@@ -231,7 +239,10 @@ def histories(draw, spec, min_ops=6, max_ops=20, n_events=3, delays=False, advan
             ops.append(['q', draw(st.sampled_from(events)), d, mode, 'x%d' % uid])
             uid += 1
         elif kind == 'adv':
-            ops.append(['adv', draw(st.sampled_from(DELAYS[1:]))])
+            if big_jump and draw(st.integers(0, 9)) == 0:
+                ops.append(['adv', 2.0 ** 30])     # epoch-like interpreter times (still exact)
+            else:
+                ops.append(['adv', draw(st.sampled_from(DELAYS[1:]))])
         else:
             ops.append(['step', draw(gvs(n, p_all, p_none))])
     ops.append(['step', draw(gvs(n, p_all, p_none))])
